@@ -514,9 +514,12 @@ class Sim:
                 k = self.key_of[t]
                 cap = self.capacity(k, tot + len(tokens), per2)
                 if cap is None or cap > 0:
+                    behind = sorted(u for u in self.woken_set() if u in self.gated
+                                    and self.gated[u][0] in ("queued_start", "queued_end"))
                     self.violations.append(({"kind": "lost_wakeup", "step": step, "task": t, "host": k,
                                              "capacity": cap, "lph": self.Lh,
-                                             "wasted_wakeups": list(self.wasted_wakeups)},
+                                             "wasted_wakeups": list(self.wasted_wakeups),
+                                             "woken_behind_trace_gate": behind},
                                             f"request {t} waits for host {k} at quiescence although {cap} slot(s) it can use are free"))
                     break
         if self.closed_seen is True and self.closer_task.done():
@@ -733,7 +736,10 @@ def sig_overlimit_first_get_reuse(case, params):
 
 def sig_per_host_wasted_wakeup(case, params):
     v = case.get("violation", {})
-    return v.get("kind") == "lost_wakeup" and int(case.get("cfg", {}).get("lph", 0)) > 0 and bool(v.get("wasted_wakeups"))
+    # narrowed after partial repair fb3ee24: only while a woken waiter sits in a suspending
+    # on_connection_queued_start/_end trace callback (the wake-up is handed on when the callback returns)
+    return (v.get("kind") == "lost_wakeup" and int(case.get("cfg", {}).get("lph", 0)) > 0 and bool(v.get("wasted_wakeups"))
+            and bool(v.get("woken_behind_trace_gate")))
 
 
 def sig_requeue_after_close(case, params):
